@@ -160,7 +160,19 @@ def prior_identity(ctx, pr, kind):
         return (p + 0.0) is p
     if kind == 'mul1.0':
         return (p * 1.0) is p
+    if kind == 'np_radd0':
+        return (np.float64(0) + p) is p
+    if kind == 'np_rmul1':
+        return (np.float64(1) * p) is p
+    if kind == 'np_mul1':
+        return (p * np.float64(1)) is p
+    if kind == 'np_int_rmul1':
+        return (np.int64(1) * p) is p
     # the following must raise
+    if kind == 'np_rmul0':
+        return repr(np.float64(0) * p)
+    if kind == 'np_mul0':
+        return repr(p * np.float64(0))
     if kind == 'mul0':
         return repr(p * 0)
     if kind == 'rmul0':
